@@ -130,7 +130,10 @@ impl Validator<'_> {
                                 "unrecognized attribute `{}`",
                                 attribute.id
                             );
-                        } else if !found_attributes.insert(attribute.id.clone()) {
+                        } else if !found_attributes.insert(attribute.id.clone())
+                            // like in Rust, several `cfg` attributes are conjoined
+                            && attribute.id != cfg_attribute
+                        {
                             return_err!(
                                 attribute.id_span,
                                 "duplicate attribute `{}`",
